@@ -124,3 +124,25 @@ pub fn ks_op(
         )
     });
 }
+
+/// A keyspace actor was asked what `other` holds that it is missing. `diff` does not
+/// change anything, so the hook evaluates it on the same two sets and logs the answer.
+pub fn ks_diff(
+    actor: u64,
+    state: &datacake_crdt::OrSWotSet<{ crate::keyspace::NUM_SOURCES }>,
+    other: &datacake_crdt::OrSWotSet<{ crate::keyspace::NUM_SOURCES }>,
+) {
+    datacake_crdt::verif::emit(|seq| {
+        let (changed, removed) = state.diff(other);
+        format!(
+            "{{\"ev\":\"ks_diff\",\"seq\":{},\"f\":{},\"actor\":{},\"other\":{},\"changed\":{},\"removed\":{},\"post\":{}}}",
+            seq,
+            datacake_crdt::FORGIVENESS_PERIOD.as_millis() / 4,
+            actor,
+            state_json(other),
+            items_json(&changed),
+            items_json(&removed),
+            state_json(state)
+        )
+    });
+}
